@@ -348,14 +348,21 @@ def run(ctx):
     okn = False
     for i in walk_no_nested(acq.node):
         b_ = {}
-        if isinstance(i, ast.If) and U.like(i.test, 'L_k not in self._host_pools', b_):
-            k_ = b_['L_k']
-            tb = ' ; '.join(norm_text(b) for b in i.body)
-            eb = ' ; '.join(norm_text(b) for b in i.orelse)
-            okn = 'self._host_pools[%s] = HostPool(' % k_ in tb and 'self._host_pool_waiters[%s] = 1' % k_ in tb \
-                and 'self._host_pools[%s]' % k_ in eb and 'self._host_pool_waiters[%s] += 1' % k_ in eb
-            mh = [c for c in U.calls(i, name='HostPool')]
-            okn = okn and len(mh) == 1 and norm_text(U.kwarg(mh[0], 'max_connections', 1) or ast.Constant(value=None)) == 'self._max_host_count'
+        if not isinstance(i, ast.If):
+            continue
+        if U.like(i.test, 'L_k not in self._host_pools', b_) or U.like(i.test, 'not L_k in self._host_pools', b_):
+            new_b, old_b = i.body, i.orelse
+        elif U.like(i.test, 'L_k in self._host_pools', b_) or U.like(i.test, 'not L_k not in self._host_pools', b_):
+            new_b, old_b = i.orelse, i.body
+        else:
+            continue
+        k_ = b_['L_k']
+        tb = ' ; '.join(norm_text(b) for b in new_b)
+        eb = ' ; '.join(norm_text(b) for b in old_b)
+        okn = 'self._host_pools[%s] = HostPool(' % k_ in tb and 'self._host_pool_waiters[%s] = 1' % k_ in tb \
+            and 'self._host_pools[%s]' % k_ in eb and 'self._host_pool_waiters[%s] += 1' % k_ in eb
+        mh = [c for b in new_b for c in U.calls(b, name='HostPool')]
+        okn = okn and len(mh) == 1 and norm_text(U.kwarg(mh[0], 'max_connections', 1) or ast.Constant(value=None)) == 'self._max_host_count'
     ck.expect(okn, 'C12-D6', acq.qual, 'host pool created with the configured per-host limit together with its waiter count',
               'host pool creation / waiter registration changed (limit not wired or maps out of step)', acq.loc())
 
@@ -420,42 +427,17 @@ def _ord(val, a, b):
 
 
 def _acq_outcome(fi, loop, o, it):
-    """Classify a leaf of the acquisition loop body by re-walking the taken branch."""
-    # The Interp substitutes `connection = <expr>` into its environment; recover the
-    # choice from the leaf's valuation instead: which top-level branch of the if-chain ran.
-    val = o.val
-    stmt = loop.body[0] if loop.body else None
-    eff = ' ; '.join(o.effects)
+    """Classify a leaf of the acquisition loop body from the final binding of the local it assigned."""
     if o.kind == 'break':
-        # find which branch: evaluate the if-chain tests in order using the valuation keys
-        cur = stmt
-        idx = 0
-        while isinstance(cur, ast.If):
-            t = cur.test
-            key_truth = None
-            tt = norm_text(t)
-            if tt == 'self.ready':
-                key_truth = val.get(('T', 'self.ready'))
-            elif isinstance(t, ast.Compare):
-                try:
-                    key_truth = it.truth(it.canon.rename(t), val)
-                except Exception:
-                    key_truth = None
-            if key_truth is None:
-                return 'other:unknown-test:' + tt
-            if key_truth:
-                body = ' ; '.join(norm_text(b) for b in cur.body)
-                if 'self.ready.pop()' in body:
-                    return 'reuse'
-                if 'self._connection_factory()' in body:
-                    return 'create'
-                return 'other:' + body
-            nxt = cur.orelse
-            cur = nxt[0] if len(nxt) == 1 else None
-        return 'other:break'
+        vals = [v for v in o.env.values() if 'self.ready.pop()' in v or 'self._connection_factory()' in v or 'C0()' in v]
+        if len(vals) == 1:
+            if 'self.ready.pop()' in vals[0]:
+                return 'reuse'
+            return 'create'
+        return 'other:break with %s' % sorted(o.env.items())
     if any('.wait()' in e for e in o.effects):
         return 'wait'
-    return 'other:%s:%s' % (o.kind, eff)
+    return 'other:%s:%s' % (o.kind, ' ; '.join(o.effects))
 
 
 def _has_cycle(graph):
